@@ -395,3 +395,130 @@ def dq_dp(law, p, h=1e-4):
 
 def as_array(v):
     return np.atleast_1d(np.asarray(v, dtype=float))
+
+
+# ------------------------------------------------------------------------------------------------------------
+# the "falsy but valid" alphabet: never imaged by VERIF_SEED, because the point is that the values are exactly
+# 0 / 0.0 / 1 / "" / the identity.  Every entry: (name, family, wrapper keyword arguments as the user writes
+# them - an omitted keyword means "left to the wrapper's default" -, law spec of the harness, libraries).
+# ------------------------------------------------------------------------------------------------------------
+_N01 = ["normal", dict(mu=0.0, sigma=1.0)]
+_N12 = ["normal", dict(mu=1.0, sigma=2.0)]
+_U = ["uniform", dict(a=-1.0, b=2.0)]
+_T = ["triangular", dict(a=-1.0, c=0.5, b=2.0)]
+_B = ["beta", dict(alpha=2.0, beta=3.0, a=-1.0, b=2.0)]
+_E = ["exponential", dict(rate=0.5, loc=-2.0)]
+_W = ["weibull", dict(loc=-1.0, scale=2.0, shape=1.5, min=True)]
+_LN = ["lognormal", dict(m=1.0, s=1.0, loc=-1.0)]
+_kwU = dict(minimum=-1.0, maximum=2.0)
+_kwT = dict(minimum=-1.0, mode=0.5, maximum=2.0)
+_kwB = dict(alpha=2.0, beta=3.0, minimum=-1.0, maximum=2.0)
+_kwE = dict(rate=0.5, loc=-2.0)
+_kwW = dict(location=-1.0, scale=2.0, shape=1.5)
+_kwLN = dict(mu=1.0, sigma=1.0, location=-1.0, set_log=True)
+
+ZERO_PLAIN = [
+    # no argument at all: the documented defaults of the wrappers
+    ("uniform-default", "uniform", {}, ["uniform", dict(a=0.0, b=1.0)], "SPOT"),
+    ("normal-default", "normal", {}, _N01, "SPOT"),
+    ("triangular-default", "triangular", {}, ["triangular", dict(a=0.0, c=0.5, b=1.0)], "SPOT"),
+    ("exponential-default", "exponential", {}, ["exponential", dict(rate=1.0, loc=0.0)], "SPOT"),
+    ("beta-default", "beta", {}, ["beta", dict(alpha=2.0, beta=2.0, a=0.0, b=1.0)], "SPOT"),
+    ("weibull-default", "weibull", {}, ["weibull", dict(loc=0.0, scale=1.0, shape=1.0, min=True)], "SPOT"),
+    ("lognormal-default", "lognormal", {}, ["lognormal-moments", dict(mu=1.0, sigma=1.0, location=0.0)], "SPOT"),
+    # one argument exactly 0 (locations, minima, maxima, modes) or exactly 1 (scales, rates, shapes)
+    ("uniform-min0", "uniform", dict(minimum=0.0, maximum=2.0), ["uniform", dict(a=0.0, b=2.0)], "SPOT"),
+    ("uniform-max0", "uniform", dict(minimum=-1.0, maximum=0.0), ["uniform", dict(a=-1.0, b=0.0)], "SPOT"),
+    ("uniform-max0-int", "uniform", dict(minimum=-1, maximum=0), ["uniform", dict(a=-1.0, b=0.0)], "SPOT"),
+    ("normal-mu0", "normal", dict(mu=0.0, sigma=2.0), ["normal", dict(mu=0.0, sigma=2.0)], "SPOT"),
+    ("normal-mu0-int", "normal", dict(mu=0, sigma=2), ["normal", dict(mu=0.0, sigma=2.0)], "SPOT"),
+    ("normal-sigma1", "normal", dict(mu=1.0, sigma=1.0), ["normal", dict(mu=1.0, sigma=1.0)], "SPOT"),
+    ("triangular-mode0", "triangular", dict(minimum=-1.0, mode=0.0, maximum=2.0), ["triangular", dict(a=-1.0, c=0.0, b=2.0)], "SPOT"),
+    ("triangular-max0", "triangular", dict(minimum=-2.0, mode=-1.0, maximum=0.0), ["triangular", dict(a=-2.0, c=-1.0, b=0.0)], "SPOT"),
+    ("triangular-min0", "triangular", dict(minimum=0.0, mode=1.0, maximum=3.0), ["triangular", dict(a=0.0, c=1.0, b=3.0)], "SPOT"),
+    ("exponential-loc0", "exponential", dict(rate=2.0, loc=0.0), ["exponential", dict(rate=2.0, loc=0.0)], "SPOT"),
+    ("exponential-rate1", "exponential", dict(rate=1.0, loc=1.0), ["exponential", dict(rate=1.0, loc=1.0)], "SPOT"),
+    ("beta-uniform", "beta", dict(alpha=1.0, beta=1.0, minimum=0.0, maximum=1.0), ["uniform", dict(a=0.0, b=1.0)], "SPOT"),
+    ("beta-min0", "beta", dict(alpha=2.0, beta=3.0, minimum=0.0, maximum=2.0), ["beta", dict(alpha=2.0, beta=3.0, a=0.0, b=2.0)], "SPOT"),
+    ("beta-max0", "beta", dict(alpha=2.0, beta=3.0, minimum=-1.0, maximum=0.0), ["beta", dict(alpha=2.0, beta=3.0, a=-1.0, b=0.0)], "SPOT"),
+    ("weibull-loc0", "weibull", dict(location=0.0, scale=2.0, shape=1.5), ["weibull", dict(loc=0.0, scale=2.0, shape=1.5, min=True)], "SPOT"),
+    ("weibull-scale1-shape1", "weibull", dict(location=1.0, scale=1.0, shape=1.0), ["weibull", dict(loc=1.0, scale=1.0, shape=1.0, min=True)], "SPOT"),
+    ("weibull-max-loc0", "weibull", dict(location=0.0, scale=2.0, shape=1.5, use_weibull_min=False), ["weibull", dict(loc=0.0, scale=2.0, shape=1.5, min=False)], "SPOT"),
+    ("lognormal-log-mu0", "lognormal", dict(mu=0.0, sigma=1.0, location=0.0, set_log=True), ["lognormal", dict(m=0.0, s=1.0, loc=0.0)], "SPOT"),
+    ("lognormal-log-mu0-loc1", "lognormal", dict(mu=0.0, sigma=0.5, location=1.0, set_log=True), ["lognormal", dict(m=0.0, s=0.5, loc=1.0)], "SPOT"),
+    ("lognormal-loc0", "lognormal", dict(mu=2.0, sigma=0.5, location=0.0), ["lognormal-moments", dict(mu=2.0, sigma=0.5, location=0.0)], "SPOT"),
+    ("lognormal-mean0", "lognormal", dict(mu=0.0, sigma=1.0, location=-2.0), ["lognormal-moments", dict(mu=0.0, sigma=1.0, location=-2.0)], "SPOT"),
+    ("dirac-0", "dirac", dict(variable_value=0.0), ["dirac", dict(v=0.0)], "OT"),
+    ("dirac-default", "dirac", {}, ["dirac", dict(v=0.0)], "OT"),
+]
+
+# OpenTURNS-only modifiers with falsy values: (name, family, base keyword arguments, base law, modifier keyword
+# arguments, law modifiers, transformed?)
+ZERO_MODS = [
+    # truncation bounds exactly 0.0: lower only, upper only, both with one of them 0 (0 is interior to the support)
+    ("normal-default+TL0", "normal", {}, _N01, dict(lower_bound=0.0), [["trunc", 0.0, None]], False),
+    ("normal-default+TU0", "normal", {}, _N01, dict(upper_bound=0.0), [["trunc", None, 0.0]], False),
+    ("normal-default+TL0int", "normal", {}, _N01, dict(lower_bound=0), [["trunc", 0.0, None]], False),
+    ("normal-default+T0hi", "normal", {}, _N01, dict(lower_bound=0.0, upper_bound=1.5), [["trunc", 0.0, 1.5]], False),
+    ("normal-default+Tlo0", "normal", {}, _N01, dict(lower_bound=-1.5, upper_bound=0.0), [["trunc", -1.5, 0.0]], False),
+    ("normal+TL0", "normal", dict(mu=1.0, sigma=2.0), _N12, dict(lower_bound=0.0), [["trunc", 0.0, None]], False),
+    ("normal+TU0", "normal", dict(mu=1.0, sigma=2.0), _N12, dict(upper_bound=0.0), [["trunc", None, 0.0]], False),
+    ("uniform+TL0", "uniform", _kwU, _U, dict(lower_bound=0.0), [["trunc", 0.0, None]], False),
+    ("uniform+TU0", "uniform", _kwU, _U, dict(upper_bound=0.0), [["trunc", None, 0.0]], False),
+    ("uniform+T0hi", "uniform", _kwU, _U, dict(lower_bound=0.0, upper_bound=1.0), [["trunc", 0.0, 1.0]], False),
+    ("uniform+Tlo0", "uniform", _kwU, _U, dict(lower_bound=-0.5, upper_bound=0.0), [["trunc", -0.5, 0.0]], False),
+    ("triangular+TL0", "triangular", _kwT, _T, dict(lower_bound=0.0), [["trunc", 0.0, None]], False),
+    ("triangular+TU0", "triangular", _kwT, _T, dict(upper_bound=0.0), [["trunc", None, 0.0]], False),
+    ("beta+TL0", "beta", _kwB, _B, dict(lower_bound=0.0), [["trunc", 0.0, None]], False),
+    ("beta+TU0", "beta", _kwB, _B, dict(upper_bound=0.0), [["trunc", None, 0.0]], False),
+    ("exponential+TL0", "exponential", _kwE, _E, dict(lower_bound=0.0), [["trunc", 0.0, None]], False),
+    ("exponential+TU0", "exponential", _kwE, _E, dict(upper_bound=0.0), [["trunc", None, 0.0]], False),
+    ("weibull+TL0", "weibull", _kwW, _W, dict(lower_bound=0.0), [["trunc", 0.0, None]], False),
+    ("weibull+TU0", "weibull", _kwW, _W, dict(upper_bound=0.0), [["trunc", None, 0.0]], False),
+    ("lognormal+TL0", "lognormal", _kwLN, _LN, dict(lower_bound=0.0), [["trunc", 0.0, None]], False),
+    ("lognormal+TU0", "lognormal", _kwLN, _LN, dict(upper_bound=0.0), [["trunc", None, 0.0]], False),
+    # a bound 0.0 that coincides with the support bound (truncation changes nothing, but must be accepted)
+    ("exponential-default+TL0", "exponential", {}, ["exponential", dict(rate=1.0, loc=0.0)], dict(lower_bound=0.0), [["trunc", 0.0, None]], False),
+    ("uniform-default+T01", "uniform", {}, ["uniform", dict(a=0.0, b=1.0)], dict(lower_bound=0.0, upper_bound=1.0), [["trunc", 0.0, 1.0]], False),
+    # transformation then truncation at 0
+    ("normal+A-+TL0", "normal", dict(mu=1.0, sigma=2.0), _N12, dict(transformation="-x", lower_bound=0.0), [["affine", -1.0, 0.0], ["trunc", 0.0, None]], True),
+    ("normal+A++TU0", "normal", dict(mu=1.0, sigma=2.0), _N12, dict(transformation="2*x+1", upper_bound=0.0), [["affine", 2.0, 1.0], ["trunc", None, 0.0]], True),
+    # transformations that are the identity, and the empty string given explicitly
+    ("normal+ID", "normal", dict(mu=1.0, sigma=2.0), _N12, dict(transformation="x"), [["affine", 1.0, 0.0]], True),
+    ("normal+ID-spaces", "normal", dict(mu=1.0, sigma=2.0), _N12, dict(transformation=" x "), [["affine", 1.0, 0.0]], True),
+    ("uniform+ID-affine", "uniform", _kwU, _U, dict(transformation="1*x+0"), [["affine", 1.0, 0.0]], True),
+    ("normal+EMPTY", "normal", dict(mu=1.0, sigma=2.0), _N12, dict(transformation="", lower_bound=None, upper_bound=None), [], False),
+    ("normal+ID+TL0", "normal", dict(mu=1.0, sigma=2.0), _N12, dict(transformation="x", lower_bound=0.0), [["affine", 1.0, 0.0], ["trunc", 0.0, None]], True),
+    ("normal+ZERO-SHIFT", "normal", dict(mu=1.0, sigma=2.0), _N12, dict(transformation="x+0"), [["affine", 1.0, 0.0]], True),
+    # the threshold of the truncated distribution at the ends of its admissible interval [0, 1]
+    ("normal-default+T+thr0", "normal", {}, _N01, dict(lower_bound=-1.0, upper_bound=1.5, threshold=0.0), [["trunc", -1.0, 1.5]], False),
+    ("normal-default+TL0+thr0", "normal", {}, _N01, dict(lower_bound=0.0, threshold=0.0), [["trunc", 0.0, None]], False),
+    ("normal-default+TU0+thr1", "normal", {}, _N01, dict(upper_bound=0.0, threshold=1.0), [["trunc", None, 0.0]], False),
+]
+
+# generic interfaces with falsy native parameters: (name, library, interfaced distribution, parameters, extra
+# keyword arguments, law spec, transformed?)
+ZERO_GENERIC = [
+    ("generic-norm-01", "SP", "norm", dict(loc=0.0, scale=1.0), {}, _N01, False),
+    ("generic-norm-empty", "SP", "norm", {}, {}, _N01, False),
+    ("generic-uniform-01", "SP", "uniform", dict(loc=0.0, scale=1.0), {}, ["uniform", dict(a=0.0, b=1.0)], False),
+    ("generic-expon-01", "SP", "expon", dict(loc=0.0, scale=1.0), {}, ["exponential", dict(rate=1.0, loc=0.0)], False),
+    ("generic-norm-01", "OT", "Normal", [0.0, 1.0], {}, _N01, False),
+    ("generic-norm-empty", "OT", "Normal", [], {}, _N01, False),
+    ("generic-uniform-01", "OT", "Uniform", [0.0, 1.0], {}, ["uniform", dict(a=0.0, b=1.0)], False),
+    ("generic-expon-01", "OT", "Exponential", [1.0, 0.0], {}, ["exponential", dict(rate=1.0, loc=0.0)], False),
+    ("generic-dirac-0", "OT", "Dirac", [0.0], {}, ["dirac", dict(v=0.0)], False),
+    ("generic-norm-01+TL0", "OT", "Normal", [0.0, 1.0], dict(lower_bound=0.0), _N01 + [["trunc", 0.0, None]], False),
+    ("generic-norm-empty+TU0", "OT", "Normal", [], dict(upper_bound=0.0), _N01 + [["trunc", None, 0.0]], False),
+    ("generic-logistic-01+TU0", "OT", "Logistic", [0.0, 1.0], dict(upper_bound=0.0), ["logistic", dict(loc=0.0, scale=1.0), ["trunc", None, 0.0]], False),
+    ("generic-norm-01+ID", "OT", "Normal", [0.0, 1.0], dict(transformation="x"), _N01 + [["affine", 1.0, 0.0]], True),
+]
+
+
+def resolve_spec(spec):
+    """'lognormal-moments' specs are given by (mean, standard deviation, location) as the wrapper takes them."""
+    if spec[0] == "lognormal-moments":
+        p = spec[1]
+        m, s = lognormal_from_moments(p["mu"], p["sigma"], p["location"])
+        return ["lognormal", dict(m=m, s=s, loc=p["location"]), *spec[2:]]
+    return list(spec)
